@@ -1,8 +1,219 @@
 /-
-  C03 — property theorems (see DESIGN.md §6 C03).  Helper lemmas live in Proofs/.
+  C03 — throw, catch and finally: the thrown value arrives unchanged, handlers run once
+  (see DESIGN.md §6 C03).
+
+  Laws of the `try` arm of `evalLoop`.  `tryArm F st env parts d` is, literally, that arm after operand
+  splitting (`splitTry`): `finallyStage (handlerStage (doForms … parts.body …))` — body, then catch handler,
+  then the deferred finally forms (definitions in Proofs/EvalCancel.lean §1; `evalLoop_succ` there is `rfl`).
+  Standard side conditions: no debugger (`stepper = none`), context not cancelled at the poll of the form
+  (`Live st`; `cancelAt = none` implies it), `try` not shadowed by a macro (`NotMacro st env "try"`).
+  Property theorems only; proofs in Proofs/EvalTry.lean.
 -/
 import LispModel.Eval
+import LispModel.Proofs.EvalTry
 namespace LispModel.Props.C03
-open LispModel
+open LispModel LispModel.Core LispModel.Proofs.EvalCancel LispModel.Proofs.EvalTry
+
+/-- The `try` form: one poll, operand splitting, then the three stages. -/
+theorem try_form_unfolds (st : State) (hl : Live st) (env : Nat) (hm : NotMacro st env "try")
+    (F : Nat) (p : Option Pos) (a : Val) (ops : List Val) (pos : Option Pos) (d : Nat) :
+    evalLoop (F + 2) st env (.list (.sym "try" p :: a :: ops) pos) d =
+      match splitTry (.sym "try" p :: a :: ops) with
+      | .error msg => (.err (newLispError (.plain msg) (.list (.sym "try" p :: a :: ops) pos)), tick st)
+      | .ok parts =>
+        finallyStage (F + 1) parts env d (handlerStage (F + 1) parts env d
+          (doForms (F + 1) (tick st) env parts.body 0 false d)) :=
+  evalLoop_try hl hm F p a ops pos d
+
+/-- operand splitting of `(try body… (catch b h0 hs…) (finally fin…))` and of the shapes without
+    `finally` / without `catch` -/
+theorem try_operands (t : Val) (body : List Val) (q : Option Pos) (b h0 : Val) (hs : List Val) (cp q' : Option Pos)
+    (fin : List Val) (fp : Option Pos) :
+    splitTry (t :: (body ++ [.list (.sym "catch" q :: b :: h0 :: hs) cp, .list (.sym "finally" q' :: fin) fp])) =
+      .ok { body := body, catchBind := some b, catchDo := some (h0 :: hs), finallyDo := some fin } ∧
+    splitTry (t :: (body ++ [.list (.sym "catch" q :: b :: h0 :: hs) cp])) =
+      .ok { body := body, catchBind := some b, catchDo := some (h0 :: hs) } ∧
+    (firstSym (body.getLast?.getD .nil) ≠ "catch" →
+      splitTry (t :: (body ++ [.list (.sym "finally" q' :: fin) fp])) = .ok { body := body, finallyDo := some fin }) :=
+  ⟨splitTry_catch_finally t body q b h0 hs cp q' fin fp, splitTry_catch t body q b h0 hs cp,
+   splitTry_finally t body q' fin fp⟩
+
+/-- The value of a try form is the value of its body: when the body returns `v` the handler stage does
+    nothing (the handler is not run, no scope is created) and the result is `v` (the finally stage cannot
+    change it). -/
+theorem try_value_is_body_value (F : Nat) (st : State) (env : Nat) (parts : TryParts) (d : Nat) (v : Val)
+    (s1 : State) (hbody : doForms F st env parts.body 0 false d = (.ok v, s1)) :
+    handlerStage F parts env d (doForms F st env parts.body 0 false d) = (.ok v, s1) ∧
+    tryArm F st env parts d = finallyStage F parts env d (.ok v, s1) ∧
+    ((tryArm F st env parts d).1 = .ok v ∨ (tryArm F st env parts d).1 = .oof) := by
+  refine ⟨by rw [hbody]; rfl, by rw [tryArm, hbody]; rfl, ?_⟩
+  rw [tryArm, hbody]; exact finallyStage_result F parts env d (.ok v, s1)
+
+/-- …or the value of the catch handler if the body threw, returned as a value and not evaluated again: when
+    the body returns the error `e` and the catch variable binds, the result of the handler stage IS the
+    result of `do(handler, 0, 0)` (`doForms … keepLast = false`: every handler form is evaluated once, the
+    last VALUE is returned, it is not handed to `EVAL` again) run in a NEW scope — id `s1.scopes.size`, outer
+    scope `env`, only binding `x ↦ caughtValue e` (the thrown value). -/
+theorem try_handler_value_returned_not_reevaluated (F : Nat) (parts : TryParts) (env d : Nat) (e : Err)
+    (s1 : State) (handler : List Val) (x : String) (hx : x ≠ "&") (p : Option Pos)
+    (hd : parts.catchDo = some handler) (hb : parts.catchBind = some (.sym x p)) :
+    handlerStage F parts env d (.err e, s1) =
+      doForms F { s1 with scopes := s1.scopes.push ⟨[(x, caughtValue e)], some env⟩ } s1.scopes.size
+        handler 0 false d :=
+  handlerStage_caught F parts env d e s1 hd hb (bindParams_one hx p _)
+
+/-- The catch variable is visible only inside the handler: creating the handler scope leaves every existing
+    scope — in particular the scope `env` of the try form — literally untouched (the store only gets one
+    more entry), and the finally forms are evaluated in `env`, not in the handler scope (see
+    `finally_runs_exactly_once`: the `doForms … env fin …` there). -/
+theorem catch_var_scoped_to_handler (s1 : State) (env : Nat) (data : List (String × Val)) (i : Nat)
+    (hi : i < s1.scopes.size) :
+    (s1.newScope env data).1.scopes[i]? = s1.scopes[i]? ∧ (s1.newScope env data).2 = s1.scopes.size ∧
+    (s1.newScope env data).2 ≠ i := by
+  refine ⟨?_, rfl, Nat.ne_of_gt hi⟩
+  simp [State.newScope, Array.getElem?_push, Nat.ne_of_lt hi]
+
+/-- The finally body runs exactly once, after body and handler, on every path.  With a finally clause `fin`,
+    the form's result on the state `s` left by the body (normal / uncaught path) or by the handler (caught path,
+    whether the handler returned or threw: `r` is its result) is given by ONE application of
+    `do(fin, 0, 0)` in scope `env` to `s`; `afterFinally r rf` keeps the pending result `r` and the state of `rf`. -/
+theorem finally_runs_exactly_once (F : Nat) (st : State) (env : Nat) (parts : TryParts) (d : Nat)
+    (fin : List Val) (hf : parts.finallyDo = some fin) :
+    -- normal: body returned `v`
+    (∀ v s1, doForms F st env parts.body 0 false d = (.ok v, s1) →
+      tryArm F st env parts d =
+        afterFinally (.ok v) (doForms F s1 env fin 0 false d)) ∧
+    -- uncaught: body threw, no catch clause
+    (∀ e s1, doForms F st env parts.body 0 false d = (.err e, s1) → parts.catchDo = none →
+      tryArm F st env parts d =
+        afterFinally (.err e) (doForms F s1 env fin 0 false d)) ∧
+    -- caught (handler returned a value or threw itself: `r`)
+    (∀ e s1 handler x p r s2, doForms F st env parts.body 0 false d = (.err e, s1) →
+      parts.catchDo = some handler → parts.catchBind = some (.sym x p) → x ≠ "&" → r ≠ .oof →
+      doForms F (s1.newScope env [(x, caughtValue e)]).1 (s1.newScope env [(x, caughtValue e)]).2 handler 0 false d
+        = (r, s2) →
+      tryArm F st env parts d =
+        afterFinally r (doForms F s2 env fin 0 false d)) :=
+  ⟨fun v s1 h => tryArm_normal F st env parts d fin hf v s1 h,
+   fun e s1 h hc => tryArm_uncaught F st env parts d fin hf e s1 h hc,
+   fun e s1 handler x p r s2 h hd hb hx hr hh => tryArm_caught F st env parts d fin hf e s1 handler x p r s2 h hd hb hx hr hh⟩
+
+/-- …without changing the result or error: the result component after the finally stage is the pending one
+    (of body / handler), whatever the finally forms returned or threw; only running out of fuel propagates. -/
+theorem finally_cannot_change_outcome (F : Nat) (parts : TryParts) (env d : Nat) (rh : R) :
+    (finallyStage F parts env d rh).1 = rh.1 ∨ (finallyStage F parts env d rh).1 = .oof :=
+  finallyStage_result F parts env d rh
+
+/-- Without a catch clause the error of the body is the error of the form (it reaches the enclosing catch
+    or the Go caller), with the same payload and position. -/
+theorem uncaught_reaches_host (F : Nat) (st : State) (env : Nat) (parts : TryParts) (d : Nat) (e : Err) (s1 : State)
+    (hbody : doForms F st env parts.body 0 false d = (.err e, s1)) (hc : parts.catchDo = none) :
+    (tryArm F st env parts d).1 = .err e ∨ (tryArm F st env parts d).1 = .oof := by
+  rw [tryArm, hbody, handlerStage_uncaught F parts env d e s1 hc]; exact finallyStage_result F parts env d _
+
+/-- `(throw x)`: the value `v` of `x` (any value that is not a Go error object) is the payload of the returned
+    error, unchanged; the error is positioned at the throw form. -/
+theorem thrown_value_unchanged (st : State) (hs : st.stepper = none) (hc : st.cancelAt = none) (env : Nat)
+    (hthrow : st.get env "throw" = some (.builtin "throw")) (F : Nat) (p : Option Pos) (x : Val) (pos : Option Pos)
+    (d : Nat) (v : Val) (s1 : State)
+    (hx : eval (F + 2) (tick (tick st)) env x (d + 1) = (.ok v, s1)) (hv : ∀ m, v ≠ .goerr m) :
+    evalLoop (F + 5) st env (.list [.sym "throw" p, x] pos) d = (.err (.lisp v pos), s1) ∧
+    caughtValue (.lisp v pos) = v :=
+  ⟨throw_delivers hs hc hthrow F p x pos d v s1 hx hv, rfl⟩
+
+/-- Re-wrapping by `NewLispError` (done by the application arm for every error coming out of a Go builtin,
+    including the callbacks of `map`, `apply`, `swap!`, `update`) never alters the payload of a lisp error;
+    a plain Go error becomes the Go error object itself (`Val.goerr msg`, still reachable by `errors.Is`),
+    NOT its message string. -/
+theorem payload_survives_rewrapping (v : Val) (pos : Option Pos) (msg : String) (c : Val) :
+    caughtValue (newLispError (.lisp v pos) c) = v ∧ caughtValue (newLispError (.plain msg) c) = .goerr msg :=
+  ⟨caughtValue_newLispError_lisp v pos c, caughtValue_newLispError_plain msg c⟩
+
+/-- Through any depth of calls: an error returned by the element loop of `eval_ast` (operands of a call,
+    elements of a vector, forms of a `do` / fn body / handler) is, unchanged, the error some element returned. -/
+theorem error_propagates_through_sequences (F : Nat) (st : State) (env : Nat) (xs : List Val) (d : Nat) (e : Err)
+    (s' : State) (h : evalList F st env xs d = (.err e, s')) :
+    ∃ x ∈ xs, ∃ F' s0, eval F' s0 env x (d + 1) = (.err e, s') :=
+  evalList_err_origin h
+
+/-- …and through `let` bindings, `if` conditions, `def` values, operands of applications: the error is
+    returned as it is. -/
+theorem error_propagates_through_special_forms (F : Nat) (st : State) (env d : Nat) (e : Err) (s1 : State) (x : Val)
+    (h : eval F st env x (d + 1) = (.err e, s1)) :
+    (∀ name p rest a1, letBinds (F + 1) st env (.sym name p :: x :: rest) a1 d = (.err e, s1)) ∧
+    (∀ lst a2, ifArm F st env lst x a2 d = (.err e, s1)) ∧
+    (∀ a1 ast, defArm F st env a1 x ast d = (.err e, s1)) ∧
+    (∀ xs, evalList (F + 1) st env (x :: xs) d = (.err e, s1)) :=
+  ⟨fun _ _ _ _ => letBinds_err h, fun _ _ => ifArm_err h, fun _ _ => defArm_err h, fun xs => evalList_cons_err h xs⟩
+
+/-- …through closure calls: the call of a closure IS the evaluation of its body (same loop), so the body's
+    result or error is the call's; and `types.Apply` (used by builtin callbacks) is one recursive `EVAL`. -/
+theorem error_propagates_through_calls (F : Nat) (st : State) (hs : st.stepper = none) (params body : Val)
+    (fenv : Nat) (m : Bool) (fp : Option Pos) (args : List Val) (ast : Val) (d : Nat) (data : List (String × Val))
+    (hb : bindParams params args = .ok data) :
+    callArm F st (.fn params body fenv m fp :: args) ast d =
+      evalLoop F (st.newScope fenv data).1 (st.newScope fenv data).2 body d ∧
+    apply (F + 1) st (.fn params body fenv m fp) args d =
+      eval F (st.newScope fenv data).1 (st.newScope fenv data).2 body (d + 1) :=
+  ⟨callArm_closure hs hb, apply_closure hb⟩
+
+/-- …through builtin callbacks: an error of the callback of `map`, `apply`, `swap!` comes out of the builtin
+    unchanged (and the application arm then re-wraps it keeping the payload). -/
+theorem error_propagates_through_callbacks (F : Nat) (st : State) (f : Val) (d : Nat) (e : Err) (s1 : State) :
+    (∀ s xs, seqOf? s = some xs → mapLoop F st f xs d = (.err e, s1) →
+      callBuiltin (F + 1) st "map" [f, s] d = (.err e, s1)) ∧
+    (∀ last tail, seqOf? last = some tail → apply F st f tail d = (.err e, s1) →
+      callBuiltin (F + 1) st "apply" [f, last] d = (.err e, s1)) ∧
+    (∀ id extra, apply F st f (st.atoms.getD id .nil :: extra) d = (.err e, s1) →
+      callBuiltin (F + 1) st "swap!" (.atom id :: f :: extra) d = (.err e, s1)) ∧
+    (∀ name args ast, callBuiltin F st name args d = (.err e, s1) →
+      callArm F st (.builtin name :: args) ast d = (.err (newLispError e ast), s1)) :=
+  ⟨fun _ _ hx h => callBuiltin_map_err hx h, fun _ _ hx h => callBuiltin_apply_err hx h,
+   fun _ _ h => callBuiltin_swap_err h, fun _ _ _ h => callArm_builtin_err h⟩
+
+/-! ### non-vacuity: concrete programs on `initState` (kernel evaluation) -/
+
+private def sy (s : String) : Val := .sym s none
+private def ls (xs : List Val) : Val := .list xs none
+private def tr (n : Int) : Val := ls [sy "trace!", .int n]
+
+/-- `(try (throw 7) (catch e e))` ⇒ 7 -/
+example : ((eval 100 initState 0 (ls [sy "try", ls [sy "throw", .int 7], ls [sy "catch", sy "e", sy "e"]]) 0).1
+    matches .ok (.int 7)) = true := by decide +kernel
+
+/-- the handler value is returned, not evaluated again:
+    `(try (throw 1) (catch e (quote (trace! 5))))` ⇒ the list `(trace! 5)`, and no effect happens -/
+example :
+    let r := eval 100 initState 0
+      (ls [sy "try", ls [sy "throw", .int 1], ls [sy "catch", sy "e", ls [sy "quote", tr 5]]]) 0
+    ((r.1 matches .ok (.list [.sym "trace!" _, .int 5] _)) && r.2.trace.isEmpty) = true := by decide +kernel
+
+/-- finally runs once on the four paths; effects in order (most recent first):
+    normal `(try (trace! 1) (finally (trace! 9)))`, caught, uncaught, handler throws -/
+example :
+    let fin := ls [sy "finally", tr 9]
+    let tl (r : R) : List Int := r.2.trace.filterMap (fun v => match v with | .int i => some i | _ => none)
+    let normal := eval 100 initState 0 (ls [sy "try", tr 1, fin]) 0
+    let caught := eval 100 initState 0 (ls [sy "try", ls [sy "throw", .int 1], ls [sy "catch", sy "e", tr 2], fin]) 0
+    let uncaught := eval 100 initState 0 (ls [sy "try", ls [sy "throw", .int 1], fin]) 0
+    let rethrow := eval 100 initState 0
+      (ls [sy "try", ls [sy "throw", .int 1], ls [sy "catch", sy "e", ls [sy "throw", .int 3]], fin]) 0
+    (tl normal == [9, 1] && (normal.1 matches .ok (.int 1)) &&
+     tl caught == [9, 2] && (caught.1 matches .ok (.int 2)) &&
+     tl uncaught == [9] && (uncaught.1 matches .err (.lisp (.int 1) _)) &&
+     tl rethrow == [9] && (rethrow.1 matches .err (.lisp (.int 3) _))) = true := by decide +kernel
+
+/-- the catch variable is not visible after the form:
+    `(do (try (throw 1) (catch e e)) e)` ⇒ error "symbol 'e' not found" -/
+example : ((eval 100 initState 0
+    (ls [sy "do", ls [sy "try", ls [sy "throw", .int 1], ls [sy "catch", sy "e", sy "e"]], sy "e"]) 0).1
+    matches .err (.lisp (.goerr _) _)) = true := by decide +kernel
+
+/-- a value thrown inside a `map` callback, two calls deep, arrives unchanged:
+    `(try (map (fn (x) (throw [x 2])) [1]) (catch e e))` ⇒ `[1 2]` -/
+example : ((eval 200 initState 0
+    (ls [sy "try", ls [sy "map", ls [sy "fn", ls [sy "x"], ls [sy "throw", .vec [sy "x", .int 2] none]],
+      .vec [.int 1] none], ls [sy "catch", sy "e", sy "e"]]) 0).1
+    matches .ok (.vec [.int 1, .int 2] _)) = true := by decide +kernel
 
 end LispModel.Props.C03
